@@ -211,3 +211,62 @@ def diff(a, b, path=""):
 def _short(x):
     s = repr(x)
     return s if len(s) < 120 else s[:117] + "..."
+
+
+# ------------------------------------------------------------------------------------------------
+# instantiated tree (record shapes of spec/Instantiate.tla)
+def s_type(t):
+    """instantiated type as observed: C++ spelling + the qualifier flags of the object"""
+    return {"cpp": t.to_cpp(), "const": bool(t.is_const), "q": _qual(t), "cls": ""}
+
+
+NOST = {"cpp": "", "const": False, "q": "", "cls": ""}
+
+
+def s_args(al):
+    return [{"t": s_type(a.ctype), "name": str(a.name), "hasdef": a.default is not None,
+             "def": "" if a.default is None else str(a.default)} for a in al.list()]
+
+
+def s_ret(r):
+    if r.type2:
+        return {"pair": True, "t1": s_type(r.type1), "t2": s_type(r.type2)}
+    return {"pair": False, "t1": s_type(r.type1), "t2": dict(NOST)}
+
+
+def i_class(c):
+    pc = c.parent_class
+    return {
+        "k": "class", "name": str(c.name), "cpp": c.to_cpp(), "virtual": bool(c.is_virtual),
+        "hasbase": bool(pc), "base": str(pc) if pc else "",
+        "ctors": [{"k": "ctor", "name": str(m.name), "args": s_args(m.args)} for m in c.ctors],
+        "methods": [{"k": "method", "name": str(m.name), "cpp": m.to_cpp(), "ret": s_ret(m.return_type),
+                     "args": s_args(m.args), "const": bool(m.is_const)} for m in c.methods],
+        "statics": [{"k": "static", "name": str(m.name), "cpp": m.to_cpp(), "ret": s_ret(m.return_type),
+                     "args": s_args(m.args)} for m in c.static_methods],
+        "props": [{"k": "prop", "t": s_type(m.ctype), "name": str(m.name), "hasdef": m.default is not None,
+                   "def": "" if m.default is None else str(m.default)} for m in c.properties],
+        "ops": [{"k": "operator", "op": str(m.operator), "ret": s_ret(m.return_type), "args": s_args(m.args),
+                 "const": bool(m.is_const)} for m in c.operators],
+        "dunders": [{"k": "dunder", "name": str(m.name), "args": s_args(m.args)} for m in c.dunder_methods],
+        "enums": [p_enum(e) for e in c.enums],
+    }
+
+
+def i_decl(d):
+    if isinstance(d, instantiator.InstantiatedClass):
+        return i_class(d)
+    if isinstance(d, instantiator.InstantiatedGlobalFunction):
+        return {"k": "function", "name": str(d.name), "cpp": d.to_cpp(), "ret": s_ret(d.return_type),
+                "args": s_args(d.args)}
+    if isinstance(d, instantiator.InstantiatedDeclaration):
+        return {"k": "fwdinst", "name": str(d.name), "cpp": d.to_cpp()}
+    if isinstance(d, parser.Namespace):
+        return {"k": "namespace", "name": str(d.name), "items": [i_decl(x) for x in d.content]}
+    if isinstance(d, (parser.Class, parser.GlobalFunction, parser.TypedefTemplateInstantiation)):
+        raise ProjectionError("uninstantiated %s left in the instantiated tree" % type(d).__name__)
+    return p_decl(d, "params")
+
+
+def proj_inst(module):
+    return [i_decl(x) for x in module.content]
